@@ -51,7 +51,7 @@ class World:
         sp('g3', 'g', None, 4, (1,))            # lower-case phase label
         sp('a1', 'S', self.sites[0], 5, (0, 2))
         sp('a2', 'S', self.sites[0], 6, (1, 2))
-        sp('vac', 'S', self.sites[0], 4, (2,))
+        sp('vac', 's', self.sites[0], 4, (2,))      # lower-case phase label on a surface species
         sp('blk', 'S', self.sites[0], 5, (2,), name=self.sites[0].attrs['bulk_specie'])
         sp('ts', 'S', self.sites[0], 3, (0, 1, 2))
         if two_sites:
@@ -245,6 +245,68 @@ def check_reaction_lines(run, w, lines, expected_rxns, label, writer, m, kw, act
                                                                       else 'present', rxn.name), m, fn)
 
 
+def check_site_blocks(run, w, clean, label, tag, m, fn):
+    """the site section of surf.inp: one SITE line per catalyst site with its density, every adsorbate once under
+    the SITE line of its own site with its occupancy, one BULK line per site"""
+    site_lines = [ln for ln in clean if ln.segs and ln.segs[0].kind == 'lit' and
+                  ln.segs[0].text.startswith('SITE/')]
+    run.check(len(site_lines) == len(w.sites), 'DATAFLOW.once', 'chemkin.write_surf', tag + ' sites',
+              '[%s] %d SITE lines for %d catalyst sites' % (label, len(site_lines), len(w.sites)), m, fn)
+    for ln, site in zip(site_lines, w.sites):
+        fs = fields_of(ln)
+        ok = len(fs) == 2 and fs[0].value == site.attrs['name'] and isinstance(fs[1].value, Rat) and \
+            fs[1].value.eq(site.attrs['site_density'])
+        run.check(ok, 'DATAFLOW.site', 'chemkin.write_surf', tag + ' site density',
+                  '[%s] SITE line %s does not carry the site name and its site density' % (label, show(ln, 100)),
+                  m, fn)
+    # adsorbates: every non-gas, non-bulk species of the reactions once, under its site, with its occupancy
+    used = {}
+    for r in w.reactions:
+        for sp in side_of(r, 'reactants').items + side_of(r, 'products').items:
+            used[sp.name] = sp
+    want_ads = [sp for sp in used.values() if sp.attrs['phase'].upper() != 'G'
+                and sp.attrs['name'] != sp.attrs['cat_site'].attrs['bulk_specie']]
+    ads_lines = [ln for ln in clean if len(fields_of(ln)) == 2 and ln.segs[-1].kind == 'lit'
+                 and ln.segs[-1].text == '/' and fields_of(ln)[1].cls == 'num'
+                 and not (ln.segs[0].kind == 'lit' and ln.segs[0].text.startswith(('SITE', 'BULK')))]
+    bulk_lines_ = [ln for ln in clean if ln.segs and ln.segs[0].kind == 'lit' and
+                   ln.segs[0].text.startswith('BULK')]
+    got_ads = sorted(str(fields_of(ln)[0].value) for ln in ads_lines)
+    run.check(got_ads == sorted(sp.attrs['name'] for sp in want_ads), 'DATAFLOW.once', 'chemkin.write_surf',
+              tag + ' adsorbates', '[%s] adsorbate lines list %s, expected %s once each'
+              % (label, got_ads, sorted(sp.attrs['name'] for sp in want_ads)), m, fn)
+    # ... each under the SITE line of its own catalyst site (a block ends at the next SITE or BULK line)
+    cur_site = None
+    is_site, is_bulk, is_ads = ({id(x) for x in lst} for lst in (site_lines, bulk_lines_, ads_lines))
+    for ln in clean:
+        if id(ln) in is_site:
+            cur_site = fields_of(ln)[0].value if fields_of(ln) else None
+        elif id(ln) in is_bulk:
+            cur_site = None
+        elif id(ln) in is_ads:
+            spm = [sp for sp in want_ads if sp.attrs['name'] == fields_of(ln)[0].value]
+            if spm:
+                own = spm[0].attrs['cat_site'].attrs['name']
+                run.check(cur_site == own, 'DATAFLOW.section', 'chemkin.write_surf', tag + ' adsorbate under its site',
+                          '[%s] adsorbate %s of site %s stands under %s' % (
+                              label, spm[0].name, str(own).strip(Z),
+                              'no SITE line' if cur_site is None else 'SITE/%s' % str(cur_site).strip(Z)), m, fn)
+    for ln in ads_lines:
+        f0, f1 = fields_of(ln)
+        spm = [sp for sp in want_ads if sp.attrs['name'] == f0.value]
+        if spm:
+            run.check(isinstance(f1.value, Rat) and f1.value.eq(spm[0].attrs['n_sites']), 'DATAFLOW.occupancy',
+                      'chemkin.write_surf', tag + ' occupancy',
+                      '[%s] occupancy written for %s is %s' % (label, spm[0].name, show(f1.value)), m, fn)
+    bulk_lines = [ln for ln in clean if ln.segs and ln.segs[0].kind == 'lit' and
+                  ln.segs[0].text.startswith('BULK')]
+    okb = len(bulk_lines) == len(w.sites) and all(
+        len(fields_of(ln)) == 2 and fields_of(ln)[0].value == s_.attrs['bulk_specie'] and
+        fields_of(ln)[1].value.eq(s_.attrs['density']) for ln, s_ in zip(bulk_lines, w.sites))
+    run.check(okb, 'DATAFLOW.site', 'chemkin.write_surf', tag + ' bulk', '[%s] BULK lines do not carry each '
+              'site\'s bulk species and density once' % label, m, fn)
+
+
 def add_reactions(w, two_sites=False):
     """the model mechanism: gas steps with and without transition state, a surface step, an adsorption, steps that
     consume the bulk species of the site"""
@@ -273,8 +335,13 @@ def mechanism(run, repo, two_sites):
     T, P = D.sym('T'), D.sym('P')
     species_list = ListV(list(w.species.values()))
     tag = 'sites=%d' % (2 if two_sites else 1)
+    # the two-site world is there for the site blocks and the steps on the second site; which activation method is
+    # written does not depend on the number of sites: all of them on one site, two of them (with and without the
+    # entropy factor in A) on two sites unless the tier is thorough
+    full = not two_sites or run.tier == 'thorough'
     # ---------------- gas.inp ----------------
-    for act in ('get_E_act', 'get_G_act', 'get_HoRT_act', 'get_GoRT_act', 'get_EoRT_act', 'get_H_act'):
+    for act in ('get_E_act', 'get_G_act', 'get_HoRT_act', 'get_GoRT_act', 'get_EoRT_act', 'get_H_act') if full else \
+            ('get_E_act', 'get_G_act'):
         fn = m.functions['write_gas']
         out = I.call_function(m, fn, [], {'nasa_species': species_list, 'reactions': ListV(list(w.reactions)), 'T': T,
                                           'P': P, 'act_method_name': act})
@@ -303,7 +370,8 @@ def mechanism(run, repo, two_sites):
     # ---------------- surf.inp ----------------
     rset = w.reaction_set()
     for act, ads in (('get_E_act', 'get_H_act'), ('get_G_act', 'get_G_act'), ('get_GoRT_act', 'get_GoRT_act'),
-                     ('get_H_act', 'get_H_act'), ('get_EoRT_act', 'get_HoRT_act')):
+                     ('get_H_act', 'get_H_act'), ('get_EoRT_act', 'get_HoRT_act')) if full else \
+            (('get_E_act', 'get_H_act'), ('get_G_act', 'get_G_act')):
         for op in ('min', 'sum'):
             fn = m.functions['write_surf']
             out = I.call_function(m, fn, [], {'reactions': rset, 'T': T, 'P': P, 'act_method_name': act,
@@ -323,70 +391,20 @@ def mechanism(run, repo, two_sites):
                     read_back(run, repo, w, 'write_surf', {'reactions': rset, 'T': T, 'P': P, 'act_method_name': act,
                                                            'ads_act_method': ads, 'sden_operation': op}, surf_rx,
                               label, pol, species=species_list if pol.small and not pol.negative else None)
-            # site blocks
-            site_lines = [ln for ln in clean if ln.segs and ln.segs[0].kind == 'lit' and
-                          ln.segs[0].text.startswith('SITE/')]
-            run.check(len(site_lines) == len(w.sites), 'DATAFLOW.once', 'chemkin.write_surf', tag + ' sites',
-                      '[%s] %d SITE lines for %d catalyst sites' % (label, len(site_lines), len(w.sites)), m, fn)
-            for ln, site in zip(site_lines, w.sites):
-                fs = fields_of(ln)
-                ok = len(fs) == 2 and fs[0].value == site.attrs['name'] and isinstance(fs[1].value, Rat) and \
-                    fs[1].value.eq(site.attrs['site_density'])
-                run.check(ok, 'DATAFLOW.site', 'chemkin.write_surf', tag + ' site density',
-                          '[%s] SITE line %s does not carry the site name and its site density' % (label, show(ln, 100)),
-                          m, fn)
-            # adsorbates: every non-gas, non-bulk species of the reactions once, under its site, with its occupancy
-            used = {}
-            for r in w.reactions:
-                for sp in side_of(r, 'reactants').items + side_of(r, 'products').items:
-                    used[sp.name] = sp
-            want_ads = [sp for sp in used.values() if sp.attrs['phase'].upper() != 'G'
-                        and sp.attrs['name'] != sp.attrs['cat_site'].attrs['bulk_specie']]
-            ads_lines = [ln for ln in clean if len(fields_of(ln)) == 2 and ln.segs[-1].kind == 'lit'
-                         and ln.segs[-1].text == '/' and fields_of(ln)[1].cls == 'num'
-                         and not (ln.segs[0].kind == 'lit' and ln.segs[0].text.startswith(('SITE', 'BULK')))]
-            bulk_lines_ = [ln for ln in clean if ln.segs and ln.segs[0].kind == 'lit' and
-                           ln.segs[0].text.startswith('BULK')]
-            got_ads = sorted(str(fields_of(ln)[0].value) for ln in ads_lines)
-            run.check(got_ads == sorted(sp.attrs['name'] for sp in want_ads), 'DATAFLOW.once', 'chemkin.write_surf',
-                      tag + ' adsorbates', '[%s] adsorbate lines list %s, expected %s once each'
-                      % (label, got_ads, sorted(sp.attrs['name'] for sp in want_ads)), m, fn)
-            # ... each under the SITE line of its own catalyst site (a block ends at the next SITE or BULK line)
-            cur_site = None
-            is_site, is_bulk, is_ads = ({id(x) for x in lst} for lst in (site_lines, bulk_lines_, ads_lines))
-            for ln in clean:
-                if id(ln) in is_site:
-                    cur_site = fields_of(ln)[0].value if fields_of(ln) else None
-                elif id(ln) in is_bulk:
-                    cur_site = None
-                elif id(ln) in is_ads:
-                    spm = [sp for sp in want_ads if sp.attrs['name'] == fields_of(ln)[0].value]
-                    if spm:
-                        own = spm[0].attrs['cat_site'].attrs['name']
-                        run.check(cur_site == own, 'DATAFLOW.section', 'chemkin.write_surf', tag + ' adsorbate under its site',
-                                  '[%s] adsorbate %s of site %s stands under %s' % (
-                                      label, spm[0].name, str(own).strip(Z),
-                                      'no SITE line' if cur_site is None else 'SITE/%s' % str(cur_site).strip(Z)), m, fn)
-            for ln in ads_lines:
-                f0, f1 = fields_of(ln)
-                spm = [sp for sp in want_ads if sp.attrs['name'] == f0.value]
-                if spm:
-                    run.check(isinstance(f1.value, Rat) and f1.value.eq(spm[0].attrs['n_sites']), 'DATAFLOW.occupancy',
-                              'chemkin.write_surf', tag + ' occupancy',
-                              '[%s] occupancy written for %s is %s' % (label, spm[0].name, show(f1.value)), m, fn)
-            bulk_lines = [ln for ln in clean if ln.segs and ln.segs[0].kind == 'lit' and
-                          ln.segs[0].text.startswith('BULK')]
-            okb = len(bulk_lines) == len(w.sites) and all(
-                len(fields_of(ln)) == 2 and fields_of(ln)[0].value == s_.attrs['bulk_specie'] and
-                fields_of(ln)[1].value.eq(s_.attrs['density']) for ln, s_ in zip(bulk_lines, w.sites))
-            run.check(okb, 'DATAFLOW.site', 'chemkin.write_surf', tag + ' bulk', '[%s] BULK lines do not carry each '
-                      'site\'s bulk species and density once' % label, m, fn)
+            check_site_blocks(run, w, clean, label, tag, m, fn)
     # ---------------- the same reaction objects written again for other run conditions ----------------
     # (a pressure series, then another temperature): every number is the model's value at the conditions of *this*
     # call.  The model value is asked of a twin of each reaction - same species, built now, never called before - and
     # REF.A is built from the species, so nothing a reaction object remembers from an earlier call can agree with both
     if not two_sites:
         Tb, Pb = D.sym('Tb'), D.sym('Pb')
+        # a second Reactions object over the same reaction objects; before it is written the user looks at the species
+        # of the mechanism, transition states included (the default of Reactions.get_species): the site section
+        # written afterwards still lists the adsorbates only
+        rset2 = w.reaction_set()
+        seen_sp = I.call_method(rset2, 'get_species', [], {})
+        if isinstance(seen_sp, Raised):
+            raise Unsupported('Reactions.get_species() raised %s on the model mechanism' % seen_sp.exc)
         for Tc, Pc, cname in ((T, Pb, 'T, Pb'), (Tb, Pb, 'Tb, Pb')):
             twins = {id(r): w.twin(r) for r in w.reactions}
             ctag = '%s again at (%s) after (%s)' % (tag, cname, 'T, P' if Tc is T else 'T, Pb')
@@ -394,7 +412,7 @@ def mechanism(run, repo, two_sites):
                     ('write_gas', {'nasa_species': species_list, 'reactions': ListV(list(w.reactions))},
                      [r for r in w.reactions if all(sp.attrs['phase'].upper() == 'G'
                                                     for sp in side_of(r, 'reactants').items)], {}, None),
-                    ('write_surf', {'reactions': rset, 'ads_act_method': 'get_H_act', 'sden_operation': 'sum'},
+                    ('write_surf', {'reactions': rset2, 'ads_act_method': 'get_H_act', 'sden_operation': 'sum'},
                      [r for r in w.reactions if not all(sp.attrs['phase'].upper() == 'G'
                                                         for sp in side_of(r, 'reactants').items)],
                      {'sden_operation': 'sum'}, 'get_H_act')):
@@ -404,9 +422,11 @@ def mechanism(run, repo, two_sites):
                 if isinstance(out, Raised):
                     run.fail('DATAFLOW.write', 'chemkin.' + writer, label, 'raises %s' % out.exc, m, fn)
                     continue
-                sec, _ = sections(out, I)
+                sec, clean = sections(out, I)
                 check_reaction_lines(run, w, sec.get('REACTIONS', []), rx, label, writer, m,
                                      dict(ckw, T=Tc, P=Pc), 'get_H_act', ads, 'kcal/mol', twins=twins)
+                if writer == 'write_surf' and Tc is T:
+                    check_site_blocks(run, w, clean, label, ctag, m, fn)
     # ---------------- the formatting options: delimiters, formats, activation-energy unit, MW correction ----------------
     opts = {'species_delimiter': ' + ', 'reaction_delimiter': ' <=> ', 'act_unit': 'kJ/mol', 'float_format': ' .5E',
             'stoich_format': '.1f', 'column_delimiter': '    '}
@@ -481,18 +501,18 @@ def mechanism(run, repo, two_sites):
 
 def policies(run, two_sites):
     """the spellings of the printed numbers a file is read back under.  The reader does not look at the site blocks,
-    and the lines of the two-site mechanism differ from the one-site ones by their species only: there one spelling
-    (all three in the thorough tier)"""
+    and the reaction lines of the two-site mechanism differ from the one-site ones by their species only: read back in
+    the thorough tier"""
     from ..absre import NumPolicy
     if two_sites and run.tier != 'thorough':
-        return (NumPolicy(),)
+        return ()
     return (NumPolicy(), NumPolicy(small=True), NumPolicy(negative=signed_quantity, small=True))
 
 
-# names as chemists write them: a digit at the end (H2, O2), inside (H2O, CH3(S), C2H6_S), the characters ( ) * _ of the
-# grammar; with the coefficients of the model mechanism the file has 2O2 and 2C2H6_S (coefficient equal to a digit of the
+# names as chemists write them: a digit at the end (H2, O2), inside (H2O, CH3(S), C2H6_s), the characters ( ) * _ of the
+# grammar; with the coefficients of the model mechanism the file has 2O2 and 2C2H6_s (coefficient equal to a digit of the
 # name) next to 2CH3(S) (different from it)
-SPELLED = {'g1': 'H2', 'g2': 'O2', 'g3': 'H2O', 'a1': 'CH3(S)', 'a2': 'C2H6_S', 'vac': 'PT*', 'ts': 'TS1(S)',
+SPELLED = {'g1': 'H2', 'g2': 'O2', 'g3': 'H2O', 'a1': 'CH3(S)', 'a2': 'C2H6_s', 'vac': 'PT*', 'ts': 'TS1(S)',
            'bulk0': 'PT(B)', 'site0': 'PT_111', 'el0': 'H', 'el1': 'O', 'el2': 'Pt'}
 
 
@@ -525,6 +545,28 @@ def signed_quantity(seg):
         return False
     pos = ('sden', 'rho', 'kb', 'h', 'Na', 'T', 'P', 'U<')
     return not all(a.startswith(pos) or a.endswith(('_sites', '_stick')) for a in v.atoms())
+
+
+def same_species(a, b):
+    """the species object given to the reader, or a copy of it that carries the same data"""
+    if a is b:
+        return True
+    if not (isinstance(a, Obj) and isinstance(b, Obj)) or a.ci is not b.ci or \
+            set(a.opaque_methods) != set(b.opaque_methods) or set(a.attrs) != set(b.attrs):
+        return False
+    for k, x in a.attrs.items():
+        y = b.attrs[k]
+        if x is y:
+            continue
+        if isinstance(x, DictV) and isinstance(y, DictV):
+            if x.d.keys() != y.d.keys() or not all(same(x.d[k_], y.d[k_]) for k_ in x.d):
+                return False
+        elif isinstance(x, Obj) or isinstance(y, Obj):
+            if not same_species(x, y):
+                return False
+        elif not same(x, y):
+            return False
+    return True
 
 
 def read_back(run, repo, w, which, kwargs, expected, label, policy, delims=('+', '='), species=None):
@@ -614,7 +656,7 @@ def read_back(run, repo, w, which, kwargs, expected, label, policy, delims=('+',
                 objs = objs_all.items[i]
                 want_o = side_of(rxn, attr).items
                 oko = isinstance(objs, ListV) and len(objs.items) == len(want_o) and \
-                    all(a is b for a, b in zip(objs.items, want_o))
+                    all(same_species(a, b) for a, b in zip(objs.items, want_o))
                 run.check(oko, 'TABLE.readback', 'chemkin.read_reactions', 'species= ' + attr,
                           '[%s] the %s objects returned for %s are %s, the model reaction has %s'
                           % (label, attr[:-1], rxn.name,
@@ -857,8 +899,17 @@ def check(run, repo):
         'one, negative where the quantity can be): reactants, products, coefficients and equation text must be the '
         'model\'s; a str.replace that can reach into a species name is reported. The read-back is repeated for files '
         'written with blank-padded and arrow delimiters, a tab between the columns and other number formats. The '
-        'mechanism has a step that consumes the bulk species of its site (listed on the BULK line only, not counted '
-        'as a surface reactant: A = kB/h written in the rule), every activation-method name (E, H, G, dimensional and '
+        'mechanism has steps that consume the bulk species of their site (listed on the BULK line only, not counted '
+        'as a surface reactant) next to one and two surface reactant molecules, a vacancy whose phase label is '
+        'lower-case, and on two sites an adsorbate of the first site that is first mentioned after one of the second '
+        '(one SITE block per site, every adsorbate under the SITE line of its own site). A has a reference written in '
+        'the rule from the species: kB/h [q_TS/q_IS at the T, P of the call] / (site densities of the non-bulk surface '
+        'reactant molecules combined by the requested operation)^(n-1). The same reaction objects are written again '
+        'at (T, P\'), then (T\', P\'): the numbers must be the values at the conditions of that call, asked of twin '
+        'objects that were never called before. read_reactions is also run with species=: the objects of both sides '
+        'are the very objects of the model reaction; and on a mechanism whose names are written out (H2, O2, H2O, '
+        'CH3(S), C2H6_s, PT*: digits inside and at the end, coefficient equal to a digit of the name). Every '
+        'activation-method name (E, H, G, dimensional and '
         'dimensionless) is run through both writers, EA lines carry reactants and products of their reaction only, '
         'tube_mole.inp names each species in the phase it belongs to (GAS or its site), and EAs.inp, T_flow.inp, '
         'tube_mole.inp written to a file have the data lines of the text returned without a file name.')
@@ -931,5 +982,30 @@ MUTANTS = [
      'edits': [(K_, "                                   stoich_format=stoich_format,\n                                   include_TS=False))\n        ]", "                                   stoich_format=stoich_format))\n        ]")]},
     {'name': 'adsorbates filed under /GAS/ in tube_mole.inp', 'expect': ('DATAFLOW.phase', 'write_tube_mole'),
      'edits': [(K_, "        if specie.phase.upper() == 'G':\n            phase = '/GAS/'", "        if specie.cat_site is None or specie.phase.upper() in 'GAS':\n            phase = '/GAS/'")]},
+    # ---- instances added after the second white-box review (whitebox2/C06.md)
+    {'name': 'a new SITE block whenever the site differs from the previous adsorbate\'s (grouping runs, not sites)', 'expect': ('DATAFLOW.once', 'write_surf'),
+     'edits': [(K_, "        try:\n            cat_adsorbates[cat_name].append(specie)\n        except KeyError:\n            cat_adsorbates[cat_name] = [specie]\n            unique_cat_sites.append(specie.cat_site)\n", "        if unique_cat_sites and unique_cat_sites[-1].name == cat_name:\n            cat_adsorbates[cat_name].append(specie)\n        else:\n            cat_adsorbates[cat_name] = [specie]\n            unique_cat_sites.append(specie.cat_site)\n")]},
+    {'name': 'adsorbates of the first site listed under every SITE line', 'expect': ('DATAFLOW.section', 'write_surf'),
+     'edits': [(K_, "        for specie in cat_adsorbates[cat_site.name]:\n", "        for specie in cat_adsorbates[unique_cat_sites[0].name]:\n")]},
+    {'name': 'reader takes the first digit run anywhere in a reactant as its coefficient', 'expect': ('TABLE.readback', 'read_reactions'),
+     'edits': [(K_, "        for RR in Reactants[-1]:\n            stoic = re.findall(r'^[0-9]*', RR)[0]\n            if stoic == '':\n                stoic = 1\n            else:\n                RR = RR.replace(stoic, \"\", 1)\n                stoic = int(stoic)\n", "        for RR in Reactants[-1]:\n            coeff = re.search(r'[0-9]+', RR)\n            if coeff is None:\n                stoic = 1\n            else:\n                stoic = int(coeff.group())\n                RR = RR[coeff.end():]\n")]},
+    {'name': 'bulk species contributes a site density to A', 'expect': ('REF.A', 'write_surf'),
+     'edits': [(R_, "                # Skip bulk species\n                if reactant.name == reactant.cat_site.bulk_specie:\n                    continue\n", "")]},
+    {'name': 'surface molecularity counts species labelled S only (case-sensitive)', 'expect': ('REF.A', 'write_surf'),
+     'edits': [(R_, "            if specie.phase.upper() != 'S':\n                continue\n", "            if specie.phase != 'S':\n                continue\n")]},
+    {'name': 'read_reactions(species=) returns the reactant objects as products', 'expect': ('TABLE.readback', 'read_reactions'),
+     'edits': [(K_, "        Prod_obj.append(P)\n", "        Prod_obj.append(R)\n")]},
+    {'name': 'Reactions.get_species remembered per key, include_TS not in it', 'expect': ('DATAFLOW.once', 'write_surf'),
+     'edits': [(R_, "        self.reactions = list(reactions)\n", "        self.reactions = list(reactions)\n        self._species = {}\n"),
+               (R_, "        species = {}\n        for reaction in self.reactions:\n", "        try:\n            return self._species[key]\n        except KeyError:\n            pass\n        species = {}\n        for reaction in self.reactions:\n"),
+               (R_, "                                                key=key))\n        return species\n", "                                                key=key))\n        self._species[key] = species\n        return species\n")]},
+    {'name': 'get_A remembered per reaction object, pressure not in the key', 'expect': ('REF.A', 'chemkin.write_'),
+     'edits': [(R_, "        self.gas_phase = self._is_gas_phase()\n", "        self.gas_phase = self._is_gas_phase()\n        self._A = {}\n"),
+               (R_, "        if self.transition_state is None or not include_entropy:\n            A = c.kb('J/K') / c.h('J s')\n", "        key = (sden_operation, include_entropy, T)\n        try:\n            return self._A[key]\n        except KeyError:\n            pass\n        if self.transition_state is None or not include_entropy:\n            A = c.kb('J/K') / c.h('J s')\n"),
+               (R_, "            A = A / eff_site_den**(n_surf - 1)\n        return A\n", "            A = A / eff_site_den**(n_surf - 1)\n        self._A[key] = A\n        return A\n")]},
+    {'name': 'get_A remembered per reaction object, temperature not in the key', 'expect': ('REF.A', 'chemkin.write_'),
+     'edits': [(R_, "        self.gas_phase = self._is_gas_phase()\n", "        self.gas_phase = self._is_gas_phase()\n        self._A = {}\n"),
+               (R_, "        if self.transition_state is None or not include_entropy:\n            A = c.kb('J/K') / c.h('J s')\n", "        key = (sden_operation, include_entropy, kwargs.get('P'))\n        try:\n            return self._A[key]\n        except KeyError:\n            pass\n        if self.transition_state is None or not include_entropy:\n            A = c.kb('J/K') / c.h('J s')\n"),
+               (R_, "            A = A / eff_site_den**(n_surf - 1)\n        return A\n", "            A = A / eff_site_den**(n_surf - 1)\n        self._A[key] = A\n        return A\n")]},
 ]
 EQUIV = []
